@@ -21,7 +21,7 @@ for p in props:
         c=claimed[i]
         m["checks"].append({
           "property_id":i,"quick_cmd":f"./check {i} --tier quick","thorough_cmd":f"./check {i} --tier thorough",
-          "evidence_file":f"/verif/evidence/{i}.json","replay_cmd_template":"cat {path}","engine":"gosym",
+          "evidence_file":f"/verif/evidence/{i}.json","replay_cmd_template":"./replay {path}","engine":"gosym",
           "level_claimed":{"category":"model_checking","text":c['text'],"design_ref":c.get('design_ref',f"DESIGN.md section 4 {i}")},
           "level_note":c['note'],
           "technique":c.get('technique',"SMT-based bounded symbolic execution of the real Go SSA (gosym + z3), counterexamples replayed against the native build")})
